@@ -165,6 +165,21 @@ fn generic_address_helpers(ctx: &Ctx) {
         check("io_port_address::<u32>", GenericAddress::io_port_address::<u32>(p), 1, 4, p as u64);
         check("io_port_address::<u64>", GenericAddress::io_port_address::<u64>(p), 1, 8, p as u64);
     }
+    // register types whose alignment is smaller than their size (the access size follows the size)
+    {
+        use zerocopy::byteorder::little_endian::{U16, U32, U64};
+        let a = 0x0102_0304_0506_0708u64;
+        check("mmio_address::<U16<LE>>", GenericAddress::mmio_address::<U16>(a), 0, 2, a);
+        check("mmio_address::<U32<LE>>", GenericAddress::mmio_address::<U32>(a), 0, 4, a);
+        check("mmio_address::<U64<LE>>", GenericAddress::mmio_address::<U64>(a), 0, 8, a);
+        check("mmio_address::<[u8; 2]>", GenericAddress::mmio_address::<[u8; 2]>(a), 0, 2, a);
+        check("mmio_address::<[u8; 4]>", GenericAddress::mmio_address::<[u8; 4]>(a), 0, 4, a);
+        check("mmio_address::<[u8; 8]>", GenericAddress::mmio_address::<[u8; 8]>(a), 0, 8, a);
+        check("mmio_address::<[u16; 2]>", GenericAddress::mmio_address::<[u16; 2]>(a), 0, 4, a);
+        check("mmio_address::<i32>", GenericAddress::mmio_address::<i32>(a), 0, 4, a);
+        check("io_port_address::<U32<LE>>", GenericAddress::io_port_address::<U32>(0x3f8), 1, 4, 0x3f8);
+        check("io_port_address::<[u8; 2]>", GenericAddress::io_port_address::<[u8; 2]>(0x3f8), 1, 2, 0x3f8);
+    }
     ctx.add_evals(n);
     ctx.add_nontrivial_counted(n / 2);
     ctx.add_engine("directed:c04.generic-address-helpers", n);
